@@ -1,6 +1,7 @@
 (** C03 — parallel gateway waits for all incoming tokens and emits one token per outgoing flow.
     Model: Model/ParGw.v (distributeFlows + the node's counter/parked list). *)
-From BV Require Import Model.ParGw Proofs.ParGwProofs.
+From BV Require Import Model.ParGw Proofs.ParGwProofs Gen.Facts.
+From Coq Require Import NArith.
 
 (* Every outgoing flow is handed out exactly once, in order, for every N >= 1 and M:
    no token is lost or duplicated by the distribution. *)
@@ -51,6 +52,24 @@ Theorem C03_counts : forall N M, 1 <= N -> forall q arr,
   parked (fst (pgw_run N M pgw_init arr)) = skipn (q * N) arr.
 Proof. exact pgw_counts. Qed.
 Print Assumptions C03_counts.
+
+(* The counter as the code keeps it (an integer field of src_join_counter_bits bits that starts again at 0 when the
+   gateway fires: both read off gateway_parallel.go on every run) behaves like the unbounded counter of the
+   theorems above, over arrival sequences of ANY length, for every gateway with fewer than 2^bits incoming flows. *)
+Theorem C03_counter_of_the_source_is_exact : forall N M arr, 1 <= N ->
+  (BinNat.N.of_nat N < BinNat.N.pow 2 src_join_counter_bits)%N ->
+  pgw_run_w src_join_counter_bits src_join_counter_resets N M pgw_init arr = pgw_run N M pgw_init arr.
+Proof. intros N M arr HN Hb. apply (pgw_run_w_exact src_join_counter_bits N M HN Hb arr pgw_init). simpl. lia. Qed.
+Print Assumptions C03_counter_of_the_source_is_exact.
+
+(* ... which is not so for a counter that runs on and is looked at modulo the number of incoming flows once it is
+   narrow: with 8 bits a join of three releases on its 256th arrival. *)
+Theorem C03_running_narrow_counter_refuted : exists N M arr,
+  snd (pgw_run_w 8 false N M pgw_init arr) <> snd (pgw_run N M pgw_init arr).
+Proof.
+  exists 3, 1, (seq 0 256). intro H. apply narrow_running_counter_differs. rewrite H. reflexivity.
+Qed.
+Print Assumptions C03_running_narrow_counter_refuted.
 
 Example C03_nonvacuous :
   snd (pgw_run 3 2 pgw_init [10; 11; 12; 20; 21; 22; 30]) =
